@@ -84,16 +84,22 @@ func OpenChainIndex(fs billy.Filesystem) (Index, error) {
 		file, err := fs.Open(path.Join("objects", "info", "commit-graphs", "graph-"+hash+".graph"))
 		if err != nil {
 			// Ignore all other file closing errors and return the error from opening the last file in the graph
-			_ = index.Close()
+			if index != nil {
+				_ = index.Close()
+			}
 			return nil, err
 		}
 
-		index, err = OpenFileIndexWithParent(file, index)
+		next, err := OpenFileIndexWithParent(file, index)
 		if err != nil {
 			// Ignore file closing errors and return the error from OpenFileIndex instead
-			_ = index.Close()
+			_ = file.Close()
+			if index != nil {
+				_ = index.Close()
+			}
 			return nil, err
 		}
+		index = next
 	}
 
 	return index, nil
